@@ -221,6 +221,14 @@ def np_floor(eng, args, kwargs):
     return _scalar_or_map(eng, f, *args)
 
 
+def math_floor(eng, args, kwargs):
+    """math.floor returns an int (np.floor a float)"""
+    v = np_floor(eng, args, kwargs)
+    if isinstance(v, Sym):
+        return eng.snum(z3.ToInt(to_z3(v, "real")), "int")
+    return int(v)
+
+
 def np_sign(eng, args, kwargs):
     if len(args) != 1 or kwargs:
         raise Unsupported("np.sign form")
@@ -252,7 +260,7 @@ def install():
     E[math.fmod] = np_fmod
     E[np.floor_divide] = np_floor_divide
     E[np.floor] = np_floor
-    E[math.floor] = lambda eng, a, k: (lambda v: v if not isinstance(v, Sym) else Sym(z3.ToInt(to_z3(v, "real")), "int"))(np_floor(eng, a, k))
+    E[math.floor] = math_floor
     E[np.sign] = np_sign
     E[math.cos] = narr.np_cos
     E[math.sin] = narr.np_sin
